@@ -1,32 +1,82 @@
 /* Shadow <stdatomic.h> for the C06 check: every atomic step of src/memory.c
  * first yields to the harness's deterministic scheduler and is then performed
  * sequentially consistently (all atomics in the source use the default
- * seq_cst order). Only on the include path of the C06 harness build. */
+ * seq_cst order; the _explicit forms are mapped to the same). Type-generic
+ * through __typeof__ and statement expressions, so any integer width and the
+ * compare-exchange / exchange / or / and / xor forms work too. Only on the
+ * include path of the library objects of the C06 harness build. */
 #ifndef VERIF_SHIM_STDATOMIC_H
 #define VERIF_SHIM_STDATOMIC_H
 #include <stddef.h>
+#include <stdint.h>
+#include <stdbool.h>
 typedef size_t atomic_size_t;
 typedef int atomic_flag;
+typedef bool atomic_bool;
+typedef char atomic_char;
+typedef signed char atomic_schar;
+typedef unsigned char atomic_uchar;
+typedef short atomic_short;
+typedef unsigned short atomic_ushort;
+typedef int atomic_int;
+typedef unsigned int atomic_uint;
+typedef long atomic_long;
+typedef unsigned long atomic_ulong;
+typedef long long atomic_llong;
+typedef unsigned long long atomic_ullong;
+typedef intptr_t atomic_intptr_t;
+typedef uintptr_t atomic_uintptr_t;
+typedef ptrdiff_t atomic_ptrdiff_t;
+typedef uint32_t atomic_uint_least32_t;
+typedef uint64_t atomic_uint_least64_t;
+#define _Atomic(T) T
 #define ATOMIC_FLAG_INIT 0
+#define ATOMIC_VAR_INIT(v) (v)
+typedef enum { memory_order_relaxed, memory_order_consume, memory_order_acquire, memory_order_release,
+               memory_order_acq_rel, memory_order_seq_cst } memory_order;
 #ifdef __cplusplus
 extern "C" {
 #endif
-void vfs_init(volatile size_t *p, size_t v);
-size_t vfs_fetch_add(volatile size_t *p, size_t v);
-size_t vfs_fetch_sub(volatile size_t *p, size_t v);
-size_t vfs_load(const volatile size_t *p);
-void vfs_store(volatile size_t *p, size_t v);
-int vfs_flag_tas(volatile int *f);
-void vfs_flag_clear(volatile int *f);
+/* yield to the scheduler before an atomic step on [p, p+sz); kind is a small tag */
+void vfs_pre(int kind, const volatile void *p, size_t sz);
+/* record what the step observed / left behind (state identification of the schedule search) */
+void vfs_post(const volatile void *p, size_t sz, unsigned long long observed, unsigned long long now);
+void vfs_flag_cleared(const volatile void *f);
+void vfs_flag_lost(const volatile void *f);
 int vfs_sched_yield(void);
 #ifdef __cplusplus
 }
 #endif
-#define atomic_init(p, v) vfs_init((p), (v))
-#define atomic_fetch_add(p, v) vfs_fetch_add((p), (v))
-#define atomic_fetch_sub(p, v) vfs_fetch_sub((p), (v))
-#define atomic_load(p) vfs_load((p))
-#define atomic_store(p, v) vfs_store((p), (v))
-#define atomic_flag_test_and_set(f) vfs_flag_tas((f))
-#define atomic_flag_clear(f) vfs_flag_clear((f))
+#define atomic_init(p, v) do { *(p) = (v); vfs_post((p), sizeof *(p), 0, (unsigned long long)*(p)); } while (0)
+#define VFS_RMW(kind, p, expr) __extension__ ({ __typeof__(*(p) + 0) vfs_old; vfs_pre((kind), (p), sizeof *(p)); vfs_old = *(p); \
+        *(p) = (__typeof__(*(p)))(expr); vfs_post((p), sizeof *(p), (unsigned long long)vfs_old, (unsigned long long)*(p)); vfs_old; })
+#define atomic_fetch_add(p, v) VFS_RMW(1, p, vfs_old + (v))
+#define atomic_fetch_sub(p, v) VFS_RMW(2, p, vfs_old - (v))
+#define atomic_fetch_or(p, v) VFS_RMW(3, p, vfs_old | (v))
+#define atomic_fetch_and(p, v) VFS_RMW(4, p, vfs_old & (v))
+#define atomic_fetch_xor(p, v) VFS_RMW(5, p, vfs_old ^ (v))
+#define atomic_exchange(p, v) VFS_RMW(6, p, (v))
+#define atomic_load(p) __extension__ ({ __typeof__(*(p) + 0) vfs_v; vfs_pre(7, (p), sizeof *(p)); vfs_v = *(p); \
+        vfs_post((p), sizeof *(p), (unsigned long long)vfs_v, (unsigned long long)vfs_v); vfs_v; })
+#define atomic_store(p, v) do { vfs_pre(8, (p), sizeof *(p)); *(p) = (v); vfs_post((p), sizeof *(p), 0, (unsigned long long)*(p)); } while (0)
+#define atomic_compare_exchange_strong(p, e, d) __extension__ ({ bool vfs_ok; vfs_pre(9, (p), sizeof *(p)); \
+        vfs_ok = *(p) == *(e); if (vfs_ok) *(p) = (d); else *(e) = *(p); \
+        vfs_post((p), sizeof *(p), (unsigned long long)vfs_ok, (unsigned long long)*(p)); vfs_ok; })
+#define atomic_compare_exchange_weak(p, e, d) atomic_compare_exchange_strong(p, e, d)
+#define atomic_flag_test_and_set(f) __extension__ ({ int vfs_o; vfs_pre(10, (f), sizeof *(f)); vfs_o = *(f); *(f) = 1; \
+        vfs_post((f), sizeof *(f), (unsigned long long)vfs_o, 1); if (vfs_o) vfs_flag_lost((f)); vfs_o != 0; })
+#define atomic_flag_clear(f) do { vfs_pre(11, (f), sizeof *(f)); *(f) = 0; vfs_post((f), sizeof *(f), 0, 0); vfs_flag_cleared((f)); } while (0)
+#define atomic_fetch_add_explicit(p, v, o) atomic_fetch_add(p, v)
+#define atomic_fetch_sub_explicit(p, v, o) atomic_fetch_sub(p, v)
+#define atomic_fetch_or_explicit(p, v, o) atomic_fetch_or(p, v)
+#define atomic_fetch_and_explicit(p, v, o) atomic_fetch_and(p, v)
+#define atomic_exchange_explicit(p, v, o) atomic_exchange(p, v)
+#define atomic_load_explicit(p, o) atomic_load(p)
+#define atomic_store_explicit(p, v, o) atomic_store(p, v)
+#define atomic_compare_exchange_strong_explicit(p, e, d, o1, o2) atomic_compare_exchange_strong(p, e, d)
+#define atomic_compare_exchange_weak_explicit(p, e, d, o1, o2) atomic_compare_exchange_strong(p, e, d)
+#define atomic_flag_test_and_set_explicit(f, o) atomic_flag_test_and_set(f)
+#define atomic_flag_clear_explicit(f, o) atomic_flag_clear(f)
+#define atomic_thread_fence(o) ((void)0)
+#define atomic_signal_fence(o) ((void)0)
 #endif
